@@ -2,6 +2,7 @@
 (* Channels.tla on all texts of length <= MaxLen over & < > " ' ; x plus texts that look escaped themselves. *)
 (* Attribute channels: sheet_name defined_name hyperlink_target hyperlink_location hyperlink_tooltip         *)
 (* table_name table_column numfmt_code font_name dv_prompt custom_property_name; element-text channels:     *)
-(* cell_text formula_text comment_author comment_text header_footer doc_property defined_name_address.      *)
+(* cell_text formula_text comment_author comment_text header_footer doc_property defined_name_address       *)
+(* cached_string; cell_text and cached_string also pass through the ST_Xstring layer (XChannels).            *)
 EXTENDS Channels
 =============================================================================
